@@ -33,10 +33,11 @@ const (
 	opWatch
 	opInsertWatch
 	opOneShot
+	opWatchAll
 	numOps
 )
 
-var opNames = []string{"begin", "insert", "modify", "delete", "insertRange", "deleteRange", "read", "clone", "iter", "commit", "abandon", "watch", "insertWatch", "oneShot"}
+var opNames = []string{"begin", "insert", "modify", "delete", "insertRange", "deleteRange", "read", "clone", "iter", "commit", "abandon", "watch", "insertWatch", "oneShot", "watchAll"}
 
 type Op struct {
 	K   int    `json:"k"`
@@ -710,6 +711,16 @@ func runTree(c TreeCase, own string) (res result) {
 			}
 		case opWatch:
 			err = in.collectWatches(o.Key)
+		case opWatchAll:
+			// channels for every word key and prefix, taken from the head before a
+			// transaction starts (taking them inside would freeze its nodes)
+			if in.tx == nil {
+				for _, k := range wordKeys {
+					if err = in.collectWatches(k); err != nil {
+						break
+					}
+				}
+			}
 		case opOneShot:
 			if in.tx == nil {
 				// Tree.Insert/Modify/Delete on the head: a complete notified transaction
@@ -838,7 +849,7 @@ var wordKeys = func() [][]byte {
 
 func genTreeCase(t *rapid.T) TreeCase {
 	c := TreeCase{RootOnly: rapid.Bool().Draw(t, "rootOnly")}
-	dist := rapid.SampledFrom([]int{0, 1, 1, 2}).Draw(t, "keyDistribution")
+	dist := rapid.SampledFrom([]int{0, 1, 1, 2, 2}).Draw(t, "keyDistribution")
 	dense := dist == 1
 	keyGen := genSparseKey()
 	switch dist {
@@ -850,6 +861,11 @@ func genTreeCase(t *rapid.T) TreeCase {
 		keyGen = rapid.SampledFrom(wordKeys)
 	}
 	weights := []int{opBegin, opInsert, opInsert, opInsert, opModify, opDelete, opDelete, opRead, opRead, opClone, opIter, opCommit, opCommit, opAbandon, opWatch, opWatch, opInsertWatch, opOneShot}
+	if dist == 2 {
+		// long write-only transactions (reads would bump the txnID and mask
+		// in-place mutation paths), with channels collected up front
+		weights = []int{opBegin, opInsert, opInsert, opInsert, opInsert, opDelete, opDelete, opDelete, opDelete, opModify, opCommit, opCommit, opAbandon, opWatchAll, opWatchAll, opInsertWatch, opRead}
+	}
 	if dense {
 		weights = append(weights, opInsertRange, opInsertRange, opInsertRange, opDeleteRange, opDeleteRange, opClone, opIter)
 	}
